@@ -389,6 +389,11 @@ func runConverge(r *vs.Rand, i int, seed uint64, out *vs.Out) {
 	}
 	history := !foreign && !rolling && r.Chance(33)
 	nRounds := 9
+	if rolling {
+		// a rollout moves one child per sync or two, and a sync can be lost to a conflict the controller causes itself
+		// (an orphaned ControllerRevision is adopted, then written with the version the cache still holds)
+		nRounds = 12
+	}
 	disturbed := []int{} // rounds before which somebody other than the controller changed something
 	if history {
 		nRounds = 13
